@@ -31,8 +31,9 @@ package asetypes
 //@ func (DataType).goValue returns (v, err)
 //@   requires [nonnil-endian] nonnil(endian)
 //@   requires [size] bytesz(t) != -1 ==> len(bs) == bytesz(t)
-//@   modifies
+//@   modifies all ghost math/big.Int.$val
 //@   ensures [decimal-nonnil] err == nil && is(v, *Decimal) ==> payload(v) != 0
+//@   ensures [money-value] (t == MONEY || t == MONEYN) && len(bs) == 8 && isle(endian) && err == nil ==> is(v, *Decimal) && as(v, *Decimal).i != nil && as(v, *Decimal).i.$val == signed64(le32(bs, 0) * 4294967296 + le32(bs, 4))
 
 //@ # ---------------------------------------------------------------------
 //@ # C16: Decimal construction and text conversion
@@ -62,6 +63,10 @@ package asetypes
 //@   requires [int-set] dec.i != nil
 //@ func (*Decimal).SetInt64
 //@   requires [int-set] dec.i != nil
+//@   ensures [value] dec.i.$val == i
+//@ func (Decimal).Int returns (r)
+//@   requires [int-set] dec.i != nil
+//@   ensures [copy] r != nil && fresh(r) && r.$val == old(dec.i.$val) && dec.i.$val == old(dec.i.$val)
 //@ func (Decimal).ByteSize returns (r)
 //@   requires [int-set] dec.i != nil
 //@ func (Decimal).Bytes returns (r)
@@ -70,3 +75,25 @@ package asetypes
 //@   requires [int-set] dec.i != nil
 //@ func (Decimal).IsNegative returns (r)
 //@   requires [int-set] dec.i != nil
+
+//@ # ---------------------------------------------------------------------
+//@ # C04 / C05: MONEY is the high 32-bit word followed by the low 32-bit word of the signed
+//@ # 64-bit count of 1/10000 units, each word in the byte order of the connection
+//@ pred le32(bs []byte, o int) { bs[o] + 256 * bs[o + 1] + 65536 * bs[o + 2] + 16777216 * bs[o + 3] }
+//@ pred hi32(x int) { (x / 4294967296) % 4294967296 }
+//@ pred byteof(v int, k int) { (v / pow2(8 * k)) % 256 }
+//@ pred recomposed(v int) { byteof(v, 0) + 256 * byteof(v, 1) + 65536 * byteof(v, 2) + 16777216 * byteof(v, 3) }
+//@ pred lo32(x int) { x % 4294967296 }
+//@ pred signed64(u int) { u >= 9223372036854775808 ? u - 18446744073709551616 : u }
+//@ pred int64range(x int) { 0 - 9223372036854775808 <= x && x <= 9223372036854775807 }
+//@ func (DataType).Bytes returns (bs, err) per-return
+//@   requires [endian] nonnil(endian)
+//@   requires [length] 0 <= length && length <= 1048576
+//@   ensures [null] tag(value) == 0 ==> err == nil && len(bs) == 0
+//@   ensures [money-layout] (t == MONEY || t == MONEYN) && length == 8 && isle(endian) && is(value, *Decimal) && payload(value) != 0 && old(as(value, *Decimal).i != nil && int64range(as(value, *Decimal).i.$val)) ==> err == nil && len(bs) == 8 && bs[0] == (hi32(old(as(value, *Decimal).i.$val)) / 1) % 256 && bs[1] == (hi32(old(as(value, *Decimal).i.$val)) / 256) % 256 && bs[2] == (hi32(old(as(value, *Decimal).i.$val)) / 65536) % 256 && bs[3] == (hi32(old(as(value, *Decimal).i.$val)) / 16777216) % 256 && bs[4] == (lo32(old(as(value, *Decimal).i.$val)) / 1) % 256 && bs[5] == (lo32(old(as(value, *Decimal).i.$val)) / 256) % 256 && bs[6] == (lo32(old(as(value, *Decimal).i.$val)) / 65536) % 256 && bs[7] == (lo32(old(as(value, *Decimal).i.$val)) / 16777216) % 256
+//@ lemma moneyRoundTrip(x int)
+//@   requires int64range(x)
+//@   ensures signed64(hi32(x) * 4294967296 + lo32(x)) == x
+//@ lemma recompose32(v int)
+//@   requires 0 <= v && v < 4294967296
+//@   ensures (v / 1) % 256 + 256 * ((v / 256) % 256) + 65536 * ((v / 65536) % 256) + 16777216 * ((v / 16777216) % 256) == v
